@@ -151,6 +151,8 @@ class Analyzer:
                 return Role("none")
             if rv.get("ak") == "tuple" and not rv["ops"]:
                 return Role("unit")
+            if rv.get("ak") == "array" and not o.proj:
+                return Role("array", items=[self.role_of_operand(x) for x in rv["ops"]])
             return Role("other", why="aggregate " + pp.rvalue(rv))
         return Role("other", why=o.kind + " " + str(getattr(o, "why", "")))
 
@@ -248,6 +250,18 @@ class Analyzer:
                 r = Role("member", via="any", closure=args[1])
             else:
                 r = Role("other", why=f"any over {src!r}")
+        elif decl.endswith(("Iterator::all", "Iterator::any")) and a(0).kind == "iter" and a(0).of.kind == "array" and not a(0).adapters:
+            # [facet, facet, ..].iter().all(Option::is_none): the conjunction of the tests; any(Option::is_some) its negation
+            src = a(0)
+            test = self._option_test(args[1])
+            facets = [getattr(x, "facet", None) if x.kind == "facet_opt" else None for x in src.of.items]
+            want = "is_none" if decl.endswith("all") else "is_some"
+            if test == want and facets and all(facets):
+                r = Role("all_absent", facets=facets)
+                if want == "is_some":
+                    r = Role("not", x=r)
+            else:
+                r = Role("other", why=f"{decl.rsplit('::', 1)[-1]} over {src!r} with {test or 'a function that is not Option::is_none / is_some'}")
         elif decl.endswith("Iterator::all"):
             # all(|e| e != v)  ==  !any(|e| e == v)
             src = a(0)
@@ -296,6 +310,30 @@ class Analyzer:
             else:
                 r = Role("other", why=f"call {decl}")
         return self.apply_fields(r, o.proj, flags)
+
+    def _option_test(self, operand):
+        """'is_none' / 'is_some' when the function handed over is `Option::is_none` / `Option::is_some` or a closure that only calls it on
+        its argument"""
+        for o in M.trace(self.B, operand, ()):
+            if o.kind == "const":
+                p = o.const.get("fn_path") or ""
+                for n in ("is_none", "is_some"):
+                    if p.endswith("Option::<T>::" + n):
+                        return n
+                return None
+            if o.kind == "aggregate" and o.rv.get("closure"):
+                cb = self.F.lib.body(o.rv["closure"])
+                if cb is None or not cb.get("mir"):
+                    return None
+                CB = M.Body(cb)
+                calls = [M.Body.callee_decl(t) or "" for _, t in CB.calls()]
+                ops = [st for i in sorted(CB.reach) for st in CB.blocks[i]["stmts"] if st["k"] == "assign" and st["rv"]["k"] in ("binop", "unop", "cast", "discr")]
+                if len(calls) == 1 and not ops:
+                    for n in ("is_none", "is_some"):
+                        if calls[0].endswith("Option::<T>::" + n):
+                            return n
+            return None
+        return None
 
     def _pure_widening(self, operand):
         """the function handed to `map` is `From::from` / `Into::into` between integer types that widen, or a closure doing only that"""
@@ -527,6 +565,15 @@ class Analyzer:
             return self._setP(st, role.facet, not truth)
         if k == "present":
             return self._setP(st, role.facet, truth)
+        if k == "all_absent":
+            if truth:
+                return all(self._setP(st, f, False) for f in role.facets)
+            outs = []    # the first facet that is present, as the short-circuit chain of tests would find it
+            for i, f in enumerate(role.facets):
+                s2 = self._fork(st)
+                if all(self._setP(s2, g, False) for g in role.facets[:i]) and self._setP(s2, f, True):
+                    outs.append(s2)
+            return outs or False
         if k == "restr_absent":
             return self._set(st, "R", not truth)
         if k == "restr_present":
